@@ -60,6 +60,7 @@ def history(rng, n):
 def run(tier, seed, replay):
     v = vlib.Verdict("C07", tier, seed)
     vlib.build_harness()
+    os.environ["VH_TRACE_LOG"] = "1"      # the harness formats every log record of the code under test (as `-vvvv` does)
     vlib.gen_rom()
     cfg = "MC_Reset_quick.cfg" if tier == "quick" else "MC_Reset_thorough.cfg"
     r = vlib.tlc(os.path.join(vlib.SPEC, "mc", "MC_Reset.tla"), os.path.join(vlib.SPEC, "mc", cfg), timeout=3000)
